@@ -294,7 +294,7 @@ def check_item(item):
         seen = set()
         for simp in (True, False):
             req, resp = run_task(b, item['external'], 'universal', 'independent', simp, True)
-            if resp[0][0] == 'refused':
+            if resp[0][:1] == ('refused',):
                 continue
             for p in parse_problems(resp[0]):
                 for pf in p['formulas']:
